@@ -1,8 +1,8 @@
-import CssVerif.Lemmas.Urls
+import CssVerif.Lemmas.UrlsKept
 /-!
 # C19 — URL enumeration/replacement exact; flattening @imports preserves meaning
 
-Property theorems only (helpers are in `Lemmas/Urls.lean`). Model: `Model/Urls.lean`, tied to
+Property theorems only (helpers are in `Lemmas/Urls.lean`, `Lemmas/UrlsKept.lean`). Model: `Model/Urls.lean`, tied to
 `cssutils/__init__.py:183-458`, `cssimportrule.py:273-362`, `cssstylesheet.py:496-913` and to CPython's
 `posixpath` / `urllib.parse` by the correspondence of `tools/harness/c19.py`.
 -/
@@ -386,9 +386,10 @@ Full statement (does NOT hold on every import tree, see the remaining known find
   for every loaded tree, `resolveImports` returns a sheet with the same meaning — the rules of all reachable sheets in
   cascade order under the media of their @import edges, every URL resolving as before — and fetches nothing.
 What holds for EVERY tree: `resolveImports` does not raise HierarchyRequestErr (`resolveImports_never_raises_hierarchy`).
-The full specification holds on trees described by `Flat` (every target available, every group with media consists
-of comments and style rules after flattening); what is missing for the others is the place and the href of an
-@import that has to be kept (C19-kept-import-hoisted, C19-kept-import-not-rebased). -/
+What holds for every tree without @namespace rules, kept imports included: `resolveImports` is the specification
+`flatSpec` (section "T19.3 with kept imports" below) — in which the three deviations from the full statement are visible.
+On trees described by `Flat` (every target available, every group with media consists of comments and style rules
+after flattening: nothing is kept) the specification is the full statement: -/
 
 /-- T19.3 [W1]: `resolveImports` computes exactly the specified flattening — cascade order, marker comment, re-basing
 with the @import's href, wrapping in the @import's media, @charset dropped — appended to the target, and no fetcher
@@ -491,6 +492,295 @@ theorem kept_nested_import_keeps_its_href :
   constructor
   · decide +kernel
   · decide
+end
+
+/-! ## T19.3 with kept imports — `resolveImports` is the specification `flatSpec`
+
+`Flat` above has no place for an @import that stays. The specification `flatSpec` (`Model/Urls.lean`, Part 4) has:
+the *groups* of the rules of a sheet in document order (`cascRules`) —
+  an @charset: nothing;  a comment, style, @media, @page, @font-face, unknown rule: itself;
+  an @import whose target was not found: the @import, looked for again from the flattened sheet (`keep1`);
+  an @import without media: marker comment, then the flattened target (recursively `hoist (cascRules …)`), its url()
+    values re-based with the @import's href, the @imports kept in it taken over (`keepAll`);
+  an @import with media whose flattened target holds comments and style rules only: marker comment, one @media rule;
+  any other @import with media: marker comment, the @import as it is —
+and then the kept @imports moved to the front, behind a leading comment (`hoist`); no insertion position occurs in it.
+
+Full statement (NOT provable: the known findings): the flattened sheet means what the tree meant. What is proved is
+that the code computes exactly `flatSpec` wherever `flatSpec` has a value; it has none (`unsupported`) for trees
+with an @namespace rule (their place in the target is C15's kernel) and where the model of `urljoin` has none, and it
+raises where re-basing raises. The differences between `flatSpec` and the full statement are then visible in the
+specification itself: `hoist` (C19-kept-import-hoisted), `replRules` leaving @import rules alone
+(C19-kept-import-not-rebased), `keep1` fetching (C19-unavailable-refetched). -/
+
+/-- T19.3 [W1, generalised to kept imports]: wherever the specification has a value — trees with unavailable
+targets, with groups that cannot be wrapped, at any depth, any file system and fetcher — `resolveImports` returns
+exactly that sheet and makes exactly the fetcher calls of the specification.
+Still `_partial`: trees with @namespace rules are outside (the specification has no value there). -/
+theorem resolveImports_flat_kept_partial (vfs : Vfs) (who : Who) (href : Str) (sheet out : Sheet)
+    (h : (flatSpec vfs who href sheet).val = .ok out) :
+    resolveImports vfs who href sheet = flatSpec vfs who href sheet :=
+  resolveImports_eq_flatSpec vfs who href sheet out h
+
+/-- T19.3 [W1, every tree without @namespace rules]: for EVERY loaded import tree in which no sheet holds an
+@namespace rule — any nesting, any mix of available, unavailable, recursive, wrappable and unwrappable targets, any
+file system and fetcher — `resolveImports` IS the specification: the same sheet or the same exception (a URL that
+cannot be re-based), and the same fetcher calls in the same order. No hypothesis that the specification has a value. -/
+theorem resolveImports_is_flatSpec (vfs : Vfs) (who : Who) (href : Str) (sheet : Sheet)
+    (h : noNsL sheet = true) : resolveImports vfs who href sheet = flatSpec vfs who href sheet :=
+  resolveImports_eq_flatSpec_full vfs who href sheet h
+
+/-- … and so does every intermediate call with a target that already holds rules -/
+theorem resolveRules_is_groups_added (vfs : Vfs) (who : Who) (href : Str) (target sheet : Sheet)
+    (h : noNsL sheet = true) :
+    resolveRules vfs who href target sheet = (cascRules vfs who href sheet).mapOk (run target) :=
+  resolveRules_casc_full vfs who sheet href target h
+
+/-- the groups consist of @imports (the kept ones) and of rules that `add` appends: no @charset, no @namespace -/
+theorem groups_hold_imports_and_appended_rules (vfs : Vfs) (who : Who) (href : Str) (sheet c : Sheet)
+    (h : (cascRules vfs who href sheet).val = .ok c) : ∀ r ∈ c, isImp r = true ∨ appended r = true := by
+  intro r hr
+  have := cascRules_kind vfs who sheet href c h r hr
+  simpa [okKind] using this
+
+/-- … into an existing target: the groups are added one rule after the other (`run` = `target.add` in a loop) -/
+theorem resolveRules_adds_groups (vfs : Vfs) (who : Who) (href : Str) (target sheet c : Sheet)
+    (h : (cascRules vfs who href sheet).val = .ok c) :
+    resolveRules vfs who href target sheet = ⟨.ok (run target c), (cascRules vfs who href sheet).log⟩ :=
+  resolveRules_casc vfs who sheet href target c h
+
+/-- adding rules one by one to an empty sheet is hoisting: the positions `CSSStyleSheet.insertRule(inOrder=True)`
+computes (after the last @import / after a leading comment / at the top) amount to "kept @imports first" -/
+theorem adding_in_order_is_hoisting (c : List Rule) : run [] c = hoist c := run_nil_eq_hoist c
+
+/-- `resolveImports(sheet, target)` with a target that holds rules already: for every target of the shape
+rules-without-@import ++ @imports ++ rules-without-@import in which the next @import goes right behind the @imports
+(`Shape`; every sheet made by `resolveImports` has it, and so has e.g. a sheet with one leading comment), adding the
+groups puts the kept @imports behind the @imports of the target and everything else at the end, each in their order -/
+theorem adding_to_a_target_is_hoisting (pre K post c : List Rule) (s : Shape pre K post) :
+    run (pre ++ K ++ post) c = pre ++ (K ++ c.filter isImp) ++ (post ++ c.filter (fun r => !isImp r)) :=
+  run_shape c pre K post s
+
+/-- non-vacuity: a target that holds a comment, an @import and a style rule has the shape -/
+example : Shape [.comment []] [.imp [] [] false [] []] [.style [] []] :=
+  ⟨by simp [isImp], by simp [isImp], by simp [isImp], by simp [impIndex, afterLast, isImp], by simp⟩
+
+/-- flattening into the result of an earlier flattening is hoisting the concatenated groups -/
+theorem flattening_into_a_flattened_sheet (c d : List Rule) : run (hoist c) d = hoist (c ++ d) := by
+  rw [← run_nil_eq_hoist, ← run_append, run_nil_eq_hoist]
+
+/-- the specification of the last round is the special case without kept imports: on a tree described by `Flat`
+the groups are the flattened sheet, nothing is hoisted and nothing fetched — so `resolveImports_flat_partial` is an
+instance of `resolveImports_flat_kept_partial` -/
+theorem flatSpec_generalises_flat (vfs : Vfs) (who : Who) (href : Str) (sheet out : Sheet) (h : Flat sheet out) :
+    flatSpec vfs who href sheet = ⟨.ok out, []⟩ := by
+  simp only [flatSpec, cascRules_flat vfs who h href]
+  rw [hoist_noImp out (fun r hr => isPlain_notImp r (h.plain_out r hr))]
+
+/-- cascade order including kept imports: hoisting keeps the kept @imports in their order, the other rules in
+their order, loses and invents nothing — for every list of groups -/
+theorem hoist_keeps_both_orders (c : List Rule) :
+    (hoist c).filter isImp = c.filter isImp ∧
+    (hoist c).filter (fun r => !isImp r) = c.filter (fun r => !isImp r) ∧
+    (hoist c).length = c.length ∧ ∀ r, r ∈ hoist c ↔ r ∈ c :=
+  ⟨hoist_imports c, hoist_others c, hoist_length c, hoist_mem c⟩
+
+/-- … so in the flattened sheet the rules that are not @imports stand in the cascade order of the groups, and so do
+the kept @imports -/
+theorem flattened_keeps_both_orders (vfs : Vfs) (who : Who) (href : Str) (sheet c : Sheet)
+    (h : (cascRules vfs who href sheet).val = .ok c) :
+    ∃ out, (resolveImports vfs who href sheet).val = .ok out ∧
+      out.filter isImp = c.filter isImp ∧ out.filter (fun r => !isImp r) = c.filter (fun r => !isImp r) := by
+  refine ⟨hoist c, ?_, hoist_imports c, hoist_others c⟩
+  have : (flatSpec vfs who href sheet).val = .ok (hoist c) := by simp [flatSpec, h]
+  rw [resolveImports_flat_kept_partial vfs who href sheet _ this, this]
+
+/-- cascade order at EVERY depth: wherever the specification has a value, the rules of the flattened sheet that
+are not @imports are exactly `bodyRules sheet` — the depth-first traversal of the import tree defined without file
+system, fetcher, target, insertion position or hoisting: own rules in document order; for an @import without media
+the marker comment and the re-based body of its target; with media one @media rule around it, or only the marker
+comment when the target cannot be wrapped — and an @import is left in the flattened sheet exactly when `bodyRules`
+says one has to be kept. With `resolveImports_flat_kept_partial` this is a statement about `resolveImports`. -/
+theorem flattened_body_is_depth_first (vfs : Vfs) (who : Who) (href : Str) (sheet out : Sheet)
+    (h : (flatSpec vfs who href sheet).val = .ok out) :
+    bodyRules sheet = .ok (out.filter notImp, out.any isImp) ∧
+    (resolveImports vfs who href sheet).val = .ok out := by
+  constructor
+  · unfold flatSpec at h
+    cases hc : (cascRules vfs who href sheet).val with
+    | error e => simp [hc] at h
+    | ok c =>
+      simp [hc] at h; subst h
+      have := cascRules_body vfs who sheet href c hc
+      have e1 : (hoist c).filter notImp = c.filter notImp := hoist_others c
+      rw [this, e1, any_isImp_hoist]
+  · rw [resolveImports_flat_kept_partial vfs who href sheet out h, h]
+
+/-- where the kept @imports go (the general form of C19-kept-import-hoisted): either the groups start with a rule
+that is not an @import and stays in front — a comment — and all kept @imports follow it, or the kept @imports come
+first; everything else behind them -/
+theorem kept_imports_are_hoisted (c : List Rule) :
+    (∃ x rest, c = x :: rest ∧ isImp x = false ∧
+      hoist c = x :: (rest.filter isImp ++ rest.filter (fun r => !isImp r))) ∨
+    hoist c = c.filter isImp ++ c.filter (fun r => !isImp r) := hoist_cases c
+
+/-- the region of C19-kept-import-hoisted, exactly: hoisting leaves the groups as they are if and only if the kept
+@imports already stand in front of everything else, behind at most one leading comment (`hoisted`, decidable) — so
+the order of the flattened sheet differs from cascade order exactly when some rule other than one leading comment
+precedes a kept @import in the groups -/
+theorem hoisting_is_identity_iff_imports_first (c : List Rule) : hoist c = c ↔ hoisted c = true :=
+  hoist_eq_self_iff c
+
+/-- without a kept @import nothing is moved -/
+theorem nothing_hoisted_without_kept_imports (c : List Rule) (h : ∀ r ∈ c, isImp r = false) : hoist c = c :=
+  hoist_noImp c h
+
+/-- the groups of a sheet are the groups of its rules in document order -/
+theorem groups_in_document_order (vfs : Vfs) (who : Who) (th : Str) (r : Rule) (rs : List Rule) (c d : List Rule)
+    (l1 l2 : FLog) (h1 : cascRule vfs who th r = ⟨.ok c, l1⟩) (h2 : cascRules vfs who th rs = ⟨.ok d, l2⟩) :
+    cascRules vfs who th (r :: rs) = ⟨.ok (c ++ d), l1 ++ l2⟩ := by
+  simp [cascRules, h1, h2]
+
+/-- the group of an @import with media whose target cannot be wrapped (it still holds a kept @import, or an @page,
+@font-face, @media … rule): the marker comment and the @import as it is, and nothing of its target -/
+theorem group_of_unwrappable_import (vfs : Vfs) (who : Who) (th href media ihref : Str) (sheet ci : Sheet) (l : FLog)
+    (rebased : Sheet × List Str)
+    (hi : cascRules vfs who ihref sheet = ⟨.ok ci, l⟩)
+    (hre : replRules (replacer href) (hoist ci) = .ok rebased)
+    (hm : media ≠ mediaAll) (hc : rebased.1.all combinable = false) :
+    cascRule vfs who th (.imp href media true ihref sheet)
+      = ⟨.ok [.comment (startComment href), .imp href media true ihref sheet], l⟩ := by
+  simp [cascRule, hi, hre, hm, hc]
+
+/-- the group of an @import with media whose flattened target holds comments and style rules only -/
+theorem group_of_wrapped_import (vfs : Vfs) (who : Who) (th href media ihref : Str) (sheet ci : Sheet) (l : FLog)
+    (rebased : Sheet × List Str)
+    (hi : cascRules vfs who ihref sheet = ⟨.ok ci, l⟩)
+    (hre : replRules (replacer href) (hoist ci) = .ok rebased)
+    (hm : media ≠ mediaAll) (hc : rebased.1.all combinable = true) :
+    cascRule vfs who th (.imp href media true ihref sheet)
+      = ⟨.ok [.comment (startComment href), .media media rebased.1], l⟩ := by
+  simp [cascRule, hi, hre, hm, hc]
+
+/-- the group of an @import without media: marker comment, then the flattened, re-based target with its kept
+@imports taken over -/
+theorem group_of_merged_import (vfs : Vfs) (who : Who) (th href ihref : Str) (sheet ci m : Sheet) (l l' : FLog)
+    (rebased : Sheet × List Str)
+    (hi : cascRules vfs who ihref sheet = ⟨.ok ci, l⟩)
+    (hre : replRules (replacer href) (hoist ci) = .ok rebased)
+    (hk : keepAll vfs who th rebased.1 = ⟨.ok m, l'⟩) :
+    cascRule vfs who th (.imp href mediaAll true ihref sheet)
+      = ⟨.ok (.comment (startComment href) :: m), l ++ l'⟩ := by
+  simp [cascRule, hi, hre, hk]
+
+/-- the group of an @import whose target was not found: the @import itself, looked for once more from the
+flattened sheet (C19-unavailable-refetched in general: that is one fetcher call whenever the URL is well-formed and
+not the sheet itself) -/
+theorem group_of_unavailable_import (vfs : Vfs) (who : Who) (th href media a : Str) (b : Sheet) (x : Rule) (l : FLog)
+    (h : setHref (vfs.length + 2) vfs who [th] href media = ⟨.ok x, l⟩) :
+    cascRule vfs who th (.imp href media false a b) = ⟨.ok [x], l⟩ := by
+  simp [cascRule, keep1, h]
+
+/-- C19-kept-import-not-rebased in general: the re-basing step of a merged group maps url() values and leaves every
+@import rule of the flattened target as it is — the kept @imports arrive with the hrefs they had -/
+theorem rebasing_leaves_kept_imports (href : Str) (inner rebased : Sheet) (log : List Str)
+    (h : replaceUrls (replacer href) (fun _ => (false, [], [])) true inner = .ok (rebased, log)) :
+    rebased.filter isImp = inner.filter isImp := by
+  simp only [replaceUrls, ↓reduceIte] at h
+  split at h
+  · simp at h
+  · rename_i b hb
+    simp at h
+    rw [← h.1]
+    exact replRules_keeps_imports _ inner b.1 b.2 hb
+
+/-- T19.3, fetching [generalised from `flatten_fetches_nothing_partial` to trees with kept imports]: when the target
+of every @import, at any depth, was found when the sheet was loaded, `resolveImports` calls no fetcher — whether or
+not @imports have to be kept because they cannot be wrapped — for every tree without @namespace rules.
+(An @import whose target was NOT found is looked for again: `group_of_unavailable_import`, the known finding.) -/
+theorem flatten_fetches_nothing_when_all_found (vfs : Vfs) (who : Who) (href : Str) (sheet : Sheet)
+    (hn : noNsL sheet = true) (hf : allFoundL sheet = true) :
+    (resolveImports vfs who href sheet).log = [] := by
+  rw [resolveImports_is_flatSpec vfs who href sheet hn]
+  have := (cascRules_found vfs who sheet href hf).1
+  unfold flatSpec
+  cases hc : (cascRules vfs who href sheet).val <;> simp [this, hc]
+
+section
+open CssVerif.Proto
+
+/-- non-vacuity of `flatten_fetches_nothing_when_all_found` with a kept @import: `@import "b.css" print;`,
+`b.css` = `@page{}` -/
+example : noNsL [.imp (cps "b.css") (cps "print") true (cps "http://h/b.css") [.page [] [] []]] = true ∧
+    allFoundL [.imp (cps "b.css") (cps "print") true (cps "http://h/b.css") [.page [] [] []]] = true := by decide
+
+/-- non-vacuity of `rebasing_leaves_kept_imports` -/
+example : replaceUrls (replacer (cps "css/a.css")) (fun _ => (false, [], [])) true
+      [.imp (cps "b.css") (cps "print") true (cps "http://h/css/b.css") [.page [] [] []],
+       .style (cps "a") [⟨cps "background", [.uri (cps "i.png")], []⟩]]
+    = .ok ([.imp (cps "b.css") (cps "print") true (cps "http://h/css/b.css") [.page [] [] []],
+       .style (cps "a") [⟨cps "background", [.uri (cps "css/i.png")], []⟩]], [cps "i.png"]) := by
+  have : replacer (cps "css/a.css") (cps "i.png") = .ok (cps "css/i.png") := by decide
+  simp [replaceUrls, replRules, replRule, replStyle, replComps, replComp, this]
+
+/-- non-vacuity of `group_of_merged_import`, `group_of_wrapped_import`, `group_of_unavailable_import` -/
+example : cascRules [] .user (cps "http://h/a.css") [.style (cps "a") []] = ⟨.ok [.style (cps "a") []], []⟩ ∧
+    replRules (replacer (cps "a.css")) (hoist [.style (cps "a") []]) = .ok ([.style (cps "a") []], []) ∧
+    keepAll [] .user (cps "http://h/m.css") [.style (cps "a") []] = ⟨.ok [.style (cps "a") []], []⟩ ∧
+    ([Rule.style (cps "a") []]).all combinable = true ∧
+    setHref ([] : Vfs).length.succ.succ [] .user [cps "http://h/m.css"] (cps "x.css") mediaAll
+      = ⟨.ok (notLoaded (cps "x.css") mediaAll), [(.user, cps "http://h/x.css")]⟩ := by
+  refine ⟨rfl, rfl, rfl, rfl, ?_⟩
+  have : urljoin (cps "http://h/m.css") (cps "x.css") = .ok (cps "http://h/x.css") := by decide
+  have hne : ¬ cps "http://h/x.css" = cps "http://h/m.css" := by decide
+  simp [setHref, this, vfsLookup, hne]
+
+/-- non-vacuity of `resolveImports_flat_kept_partial`, and the three known findings read off the specification:
+main = `@import "a.css"; @import "b.css" print; @import "x.css";` with `a.css` = `a{}`, `b.css` = `@page{}` (cannot be
+wrapped), `x.css` unavailable: the specification has the value comment, @import b, @import x, style rule, comment
+(kinds 1 2 2 4 1) with one fetcher call -/
+example :
+    (flatSpec [] .user (cps "http://h/m.css")
+      [.imp (cps "a.css") mediaAll true (cps "http://h/a.css") [.style (cps "a") []],
+       .imp (cps "b.css") (cps "print") true (cps "http://h/b.css") [.page [] [] []],
+       .imp (cps "x.css") mediaAll false [] []]).okMap (fun t => (t.map Rule.tag, importHrefs t))
+      = some ([1, 2, 2, 4, 1], [cps "b.css", cps "x.css"]) ∧
+    (flatSpec [] .user (cps "http://h/m.css")
+      [.imp (cps "a.css") mediaAll true (cps "http://h/a.css") [.style (cps "a") []],
+       .imp (cps "b.css") (cps "print") true (cps "http://h/b.css") [.page [] [] []],
+       .imp (cps "x.css") mediaAll false [] []]).log = [(.user, cps "http://h/x.css")] := by
+  constructor <;> decide +kernel
+
+/-- `bodyRules` on that tree: marker comment of a, the style rule of a, marker comment of b (whose target is not
+merged) — kinds 1 4 1 — and "an @import is kept" -/
+example :
+    (match bodyRules
+      [.imp (cps "a.css") mediaAll true (cps "http://h/a.css") [.style (cps "a") []],
+       .imp (cps "b.css") (cps "print") true (cps "http://h/b.css") [.page [] [] []],
+       .imp (cps "x.css") mediaAll false [] []] with
+     | .ok (b, k) => some (b.map Rule.tag, k)
+     | .error _ => none) = some ([1, 4, 1], true) := by decide +kernel
+
+/-- non-vacuity, nested: `@import "css/a.css";` with `css/a.css` = `@import "b.css" print; a{}` and `css/b.css` =
+`@page{}`: the kept @import of the inner sheet is taken over into the outer group, behind the marker comment -/
+example :
+    (flatSpec [] .user (cps "http://h/m.css")
+      [.imp (cps "css/a.css") mediaAll true (cps "http://h/css/a.css")
+        [.imp (cps "b.css") (cps "print") true (cps "http://h/css/b.css") [.page [] [] []],
+         .style (cps "a") []]]).okMap (fun t => (t.map Rule.tag, importHrefs t))
+      = some ([1, 2, 1, 4], [cps "b.css"]) := by decide +kernel
+
+/-- non-vacuity of `resolveImports_is_flatSpec`: the witness trees above hold no @namespace rule -/
+example : noNsL
+      [.imp (cps "a.css") mediaAll true (cps "http://h/a.css") [.style (cps "a") []],
+       .imp (cps "b.css") (cps "print") true (cps "http://h/b.css") [.page [] [] []],
+       .imp (cps "x.css") mediaAll false [] []] = true := by decide
+
+/-- non-vacuity of the group theorems: their hypotheses hold for the witness trees above -/
+example : cascRules [] .user (cps "http://h/b.css") [.page [] [] []] = ⟨.ok [.page [] [] []], []⟩ ∧
+    replRules (replacer (cps "b.css")) (hoist [.page [] [] []]) = .ok ([.page [] [] []], []) ∧
+    cps "print" ≠ mediaAll ∧ ([Rule.page [] [] []]).all combinable = false := by
+  refine ⟨rfl, rfl, by decide, rfl⟩
 end
 
 /-! ## T19.3, fetching — each available target is fetched exactly once per import edge
